@@ -315,11 +315,40 @@ def check_named(ctx, site, entry):
     return True, ''
 
 
-def bounded_no_panic(ctx, fn):
+def _direct_callers(ctx, fn):
+    """Functions of the crate whose MIR (or whose closures' MIR) calls `fn`."""
+    import re as _re
+
+    def build():
+        rev = {}
+        for path, m in ctx.facts.mir.items():
+            owner = _re.sub(r'(::\{closure#\d+\})+$', '', path.split('::{promoted')[0])
+            for bb in m['blocks']:
+                t = bb['term']
+                if t.get('k') == 'call':
+                    for tgt in {t.get('resolved'), t.get('callee')}:
+                        if tgt:
+                            rev.setdefault(tgt, set()).add(owner)
+        return rev
+    return sorted(ctx.memo(('rev-callgraph',), build).get(fn, ()))
+
+
+def bounded_no_panic(ctx, fn, _depth=0):
     """Fallback evidence for a site the prover cannot discharge: the bounded case tables of the abstract machine
     that cover `fn` reach no panic site at all.  Returns (covered, clean, text)."""
     from . import dsvm, scanvm, textvm
+    import re as _re0
+    fn = _re0.sub(r'(::\{closure#\d+\})+$', '', fn)
     mod = fn.lstrip('<').split('::')[0]
+    if mod == 'lang' and not _re0.search(r'lang::(\w\w)::', fn) and _depth < 3:
+        # a helper shared by the languages (`lang::format_with_suffix`): covered when every function that calls it is
+        callers = [c for c in _direct_callers(ctx, fn) if c != fn]
+        if not callers:
+            return False, False, 'no bounded table covers ' + fn
+        parts = [bounded_no_panic(ctx, c, _depth + 1) for c in callers]
+        if not all(p[0] for p in parts):
+            return False, False, 'no bounded table covers a caller of ' + fn
+        return True, all(p[1] for p in parts), 'the tables of its %d callers (%s)' % (len(callers), parts[0][2])
     try:
         if mod == 'get_interpreter_for':
             from . import facadevm
